@@ -291,6 +291,31 @@ def _collides(d, qubits):
     return len(set(proj)) < len(proj)
 
 
+def _default_parameters(ctx, a, b, nll, jsd, compute_mmd, p, pe, sig, eps):
+    """the measures with their parameters LEFT OUT, asked after calls that gave them explicitly (possibly coarse
+    ones): the documented defaults (epsilon 1e-9, sigma 1.0) are in force whatever was passed earlier in the
+    process (what happens to the caller's parameter dicts is C20's business, not judged here)"""
+    d0 = 1e-9
+    db = dict(_items(b))
+    exp = -sum(v * math.log(max(d0, db.get(k_, 0))) for k_, v in _items(a))
+    got = nll(a, b, {})
+    ctx.check("nll-value", abs(got - exp) <= 1e-9 * max(1, abs(exp)),
+              lambda: f"nll with the default clipping constant, asked after a call with epsilon={eps}: {got!r} vs fold at 1e-9 {exp!r}")
+    ent = -sum(v * math.log(v) for _, v in _items(a) if v > 0)
+    K = len(set(k_ for k_, _ in _items(a)) | set(db))
+    ctx.check("nll-entropy-bound", got >= ent - K * d0 - 1e-12,
+              lambda: f"nll (default epsilon, after epsilon={eps}) = {got!r} < entropy {ent!r} for target {_items(a)} model {_items(b)}")
+    j_ab, j_ba = jsd(a, b, {}), jsd(b, a, {})
+    da = dict(_items(a))
+    exp_ba = -sum(v * math.log(max(d0, da.get(k_, 0))) for k_, v in _items(b))
+    ctx.check("js-symmetric", abs(j_ab - j_ba) <= 1e-12 * max(1, abs(j_ab)) and abs(j_ab - (exp + exp_ba) / 2) <= 1e-9 * max(1, abs(j_ab)),
+              lambda: f"jsd with default parameters after epsilon={eps}: ab={j_ab!r} ba={j_ba!r}, fold {(exp + exp_ba) / 2!r}")
+    m1, m2 = compute_mmd(a, b, {}), compute_mmd(a, b, {"sigma": 1.0})
+    ctx.check("mmd-laws", abs(m1 - m2) <= 1e-15 * max(1, abs(m2)),
+              lambda: f"mmd with the default bandwidth after sigma={sig}: {m1!r} vs sigma=1.0 given: {m2!r}")
+    ctx.mon.note("default-parameters-after-explicit")
+
+
 # ----------------------------------------------------------------------------- cases
 def run_case(ctx):
     from orquestra.quantum.distributions import (
@@ -314,6 +339,40 @@ def run_case(ctx):
             t = sum(d.values())
             d = {k: v / t for k, v in d.items()}
         ctx.describe(f"construct normalize={normalize} {d!r}", _nontrivial_dict(d))
+        if ctx.index % 3 == 2 and normalize:
+            # the caller KEEPS the mapping it built the object from (a running tally that is updated later, the
+            # dict of another distribution) and goes on using it: the object must go on holding what it was built
+            # with - "always holds non-negative probabilities summing to 1 in the same proportions as the input"
+            own = dict(d)
+            obj = MOD(own, normalize)
+            held = list(_items(obj))
+            edit = rng.choice(["bump", "newkey", "scale", "clear", "negative"])
+            ks = list(own)
+            if edit == "bump":
+                own[rng.choice(ks)] += rng.choice([1, 7, 0.25])
+            elif edit == "newkey":
+                k0 = _canon_key(ks[0])
+                nk = tuple((x + 1) % 2 for x in k0)
+                own[nk if isinstance(ks[0], tuple) else ("".join(map(str, nk)) if "," not in ks[0] else ",".join(map(str, nk)))] = 3.0
+            elif edit == "scale":
+                for k_ in ks:
+                    own[k_] *= 5
+            elif edit == "clear":
+                own.clear()
+            else:
+                own[rng.choice(ks)] = -1.0
+            after = list(_items(obj))
+            s_after = sum(v for _, v in after)
+            ctx.mon.note("construct-owner-edit:" + edit)
+            ctx.check("construct-input-kept-by-caller",
+                      after == held and after and math.isclose(s_after, 1, rel_tol=1e-9) and all(v >= 0 for _, v in after),
+                      lambda: f"distribution built from {d!r} held {held!r}; after the caller's own edit ({edit}) of the "
+                              f"mapping it had passed in, the object holds {after!r}")
+            # another object built from the same source data is what it would have been anyway
+            obj2 = MOD(dict(d), normalize)
+            ctx.check("construct-input-kept-by-caller", list(_items(obj2)) == held,
+                      lambda: f"second object from equal input {d!r}: {list(_items(obj2))!r} vs first {held!r}")
+            return
         MOD(dict(d), normalize)
         return
     if cls == "construct_invalid":
@@ -428,7 +487,7 @@ def run_case(ctx):
         if _has_duplicate_canonical_keys(d2) or _has_duplicate_canonical_keys(d1):
             d2 = {_canon_key(k): v for k, v in d2.items()}
         sig = rng.choice([1.0, 0.3, 7.5, [0.5, 2.0], [1.0], [0.1, 1.0, 10.0]])
-        eps = rng.choice([1e-9, 1e-6, 1e-3])
+        eps = rng.choice([1e-9, 1e-6, 1e-3, 0.05, 0.3])
         ctx.describe(f"distances sigma={sig} eps={eps} {d1!r} {d2!r}", _nontrivial_dict(d1) or _nontrivial_dict(d2))
         a, b = MOD(dict(d1)), MOD(dict(d2))
         p = {"sigma": sig}
@@ -470,6 +529,7 @@ def run_case(ctx):
         ej_ab, ej_ba = edd(a, b, jsd, distance_measure_parameters=pe), edd(b, a, jsd, distance_measure_parameters=pe)
         ctx.check("js-symmetric", abs(ej_ab - ej_ba) <= 1e-12 * max(1, abs(ej_ab)) and abs(ej_ab - j_ab) <= 1e-12 * max(1, abs(j_ab)),
                   lambda: f"evaluate_distribution_distance(jsd) ab={ej_ab!r} ba={ej_ba!r} direct={j_ab!r}")
+        _default_parameters(ctx, a, b, nll, jsd, compute_mmd, p, pe, sig, eps)
         return
     if cls == "wide":
         # registers wider than a byte / a machine word: outcomes on 9..70 subsystems, few keys.  Bit-packed fast
@@ -580,6 +640,7 @@ def run_case(ctx):
                 ctx.check("nll-value", abs(got - exp) <= 1e-9 * max(1, abs(exp)), lambda: f"nll {got!r} vs fold {exp!r}")
                 j_xy, j_yx = jsd(x, y, pe), jsd(y, x, pe)
                 ctx.check("js-symmetric", abs(j_xy - j_yx) <= 1e-12 * max(1, abs(j_xy)), lambda: f"jsd xy={j_xy!r} yx={j_yx!r}")
+                _default_parameters(ctx, x, y, nll, jsd, compute_mmd, {"sigma": sig}, pe, sig, eps)
         elif mode == "saveload":
             if _TMP is None:
                 _TMP = tempfile.mkdtemp(prefix="rv-c17-")
